@@ -44,12 +44,15 @@ fn keyword_snippet(rng: &mut Rng) -> (String, String, Vec<(&'static str, &'stati
     let f = pick(3);
     let p = pick(3);
     let m = pick(2);
+    // names that only become reserved words after a backend's case conversion (`in_` → `in`)
+    let u: Vec<String> = pick(2).iter().map(|k| format!("{k}_")).collect();
+    let lead = format!("_{}", pick(1)[0]);
     let tag = format!("kw:{}+{}+{}", f.join(","), p.join(","), m.join(","));
     let union_safe = |s: &str| if s == "union" || s == "auto" || s == "default" { format!("r#{s}") } else { s.to_string() };
     let _ = union_safe;
     let items = format!(
-        "    pub struct XtKw {{ pub {}: u8, pub {}: bool, pub {}: f64 }}\n    #[diplomat::opaque]\n    pub struct XtKwO;\n    impl XtKwO {{\n        pub fn make({}: u8, {}: &XtKwO, {}: XtKw) -> Box<XtKwO> {{ unimplemented!() }}\n        pub fn {}(&self) -> u8 {{ unimplemented!() }}\n        pub fn {}(&self, {}: u16) -> XtKw {{ unimplemented!() }}\n    }}\n    pub enum XtKwE {{ Int, Default, Class }}\n",
-        f[0], f[1], f[2], p[0], p[1], p[2], m[0], m[1], p[0]
+        "    pub struct XtKw {{ pub {}: u8, pub {}: bool, pub {}: f64 }}\n    #[diplomat::opaque]\n    pub struct XtKwO;\n    impl XtKwO {{\n        pub fn make({}: u8, {}: &XtKwO, {}: XtKw) -> Box<XtKwO> {{ unimplemented!() }}\n        pub fn {}(&self) -> u8 {{ unimplemented!() }}\n        pub fn {}(&self, {}: u16) -> XtKw {{ unimplemented!() }}\n        pub fn underscored(&self, {}: u8, {}: u8, {}: u8) -> u8 {{ unimplemented!() }}\n    }}\n    pub enum XtKwE {{ Int, Default, Class }}\n",
+        f[0], f[1], f[2], p[0], p[1], p[2], m[0], m[1], p[0], u[0], u[1], lead
     );
     let mut names = vec![];
     for x in &f {
@@ -62,6 +65,56 @@ fn keyword_snippet(rng: &mut Rng) -> (String, String, Vec<(&'static str, &'stati
         names.push(("method", *x));
     }
     (tag, items, names)
+}
+
+/// return shapes that exercise the macro's return rewriting and every backend's result handling: the candidates
+/// a backend accepts (one by one) are spliced in as methods of one opaque
+fn sweep_snippet(rng: &mut Rng, target: &str) -> (String, String) {
+    let cands: [&str; 30] = [
+        "pub fn w_dres_opt(&self, w: &mut DiplomatWrite) -> DiplomatResult<(), Option<u8>> { unimplemented!() }",
+        "pub fn w_dres_str<'a>(&'a self, w: &mut DiplomatWrite) -> DiplomatResult<(), &'a str> { unimplemented!() }",
+        "pub fn w_dres_ord(&self, w: &mut DiplomatWrite) -> DiplomatResult<(), core::cmp::Ordering> { unimplemented!() }",
+        "pub fn w_res_opt(&self, w: &mut DiplomatWrite) -> Result<(), Option<i16>> { unimplemented!() }",
+        "pub fn w_res_dopt(&self, w: &mut DiplomatWrite) -> Result<(), DiplomatOption<i16>> { unimplemented!() }",
+        "pub fn w_res_box(&self, w: &mut DiplomatWrite) -> Result<(), Box<XtShp>> { unimplemented!() }",
+        "pub fn w_opt(&self, w: &mut DiplomatWrite) -> Option<()> { unimplemented!() }",
+        "pub fn w_dopt(&self, w: &mut DiplomatWrite) -> DiplomatOption<()> { unimplemented!() }",
+        "pub fn dres_opt_ok(&self) -> DiplomatResult<Option<u32>, ()> { unimplemented!() }",
+        "pub fn dres_dopt_ok(&self) -> DiplomatResult<DiplomatOption<u32>, ()> { unimplemented!() }",
+        "pub fn dres_slice<'a>(&'a self) -> DiplomatResult<&'a [u8], u8> { unimplemented!() }",
+        "pub fn dres_str16<'a>(&'a self) -> DiplomatResult<&'a DiplomatStr16, ()> { unimplemented!() }",
+        "pub fn res_ord(&self) -> Result<core::cmp::Ordering, ()> { unimplemented!() }",
+        "pub fn dres_ord(&self) -> DiplomatResult<core::cmp::Ordering, core::cmp::Ordering> { unimplemented!() }",
+        "pub fn opt_opt(&self) -> Option<Option<u8>> { unimplemented!() }",
+        "pub fn opt_dopt(&self) -> Option<DiplomatOption<u8>> { unimplemented!() }",
+        "pub fn dopt_opt(&self) -> DiplomatOption<Option<u8>> { unimplemented!() }",
+        "pub fn opt_str<'a>(&'a self) -> Option<&'a str> { unimplemented!() }",
+        "pub fn dopt_str<'a>(&'a self) -> DiplomatOption<&'a str> { unimplemented!() }",
+        "pub fn dopt_dstr<'a>(&'a self) -> DiplomatOption<DiplomatUtf8StrSlice<'a>> { unimplemented!() }",
+        "pub fn opt_slice<'a>(&'a self) -> Option<&'a [f64]> { unimplemented!() }",
+        "pub fn opt_ord(&self) -> Option<core::cmp::Ordering> { unimplemented!() }",
+        "pub fn res_box_optbox(&self) -> Result<Box<XtShp>, Option<Box<XtShp>>> { unimplemented!() }",
+        "pub fn res_ref_optref<'a>(&'a self) -> Result<&'a XtShp, Option<&'a XtShp>> { unimplemented!() }",
+        "pub fn res_unit_unit(&self) -> Result<(), ()> { unimplemented!() }",
+        "pub fn dres_unit_unit(&self) -> DiplomatResult<(), ()> { unimplemented!() }",
+        "pub fn opt_unit(&self) -> Option<()> { unimplemented!() }",
+        "pub fn res_opt_opt(&self) -> Result<Option<bool>, DiplomatOption<f32>> { unimplemented!() }",
+        "pub fn res_str_str<'a>(&'a self) -> Result<&'a DiplomatStr, DiplomatStr16Slice<'a>> { unimplemented!() }",
+        "pub fn static_mixed(a: Option<u8>, b: DiplomatOption<u8>, w: &mut DiplomatWrite) -> Result<(), Option<u8>> { unimplemented!() }",
+    ];
+    let mut picked: Vec<&str> = vec![];
+    let mut order: Vec<usize> = (0..cands.len()).collect();
+    rng.shuffle(&mut order);
+    for i in order {
+        if picked.len() >= 10 { break; }
+        let one = format!("#[diplomat::bridge]\nmod ffi {{\n    #[diplomat::opaque]\n    pub struct XtShp;\n    impl XtShp {{\n        {}\n    }}\n}}\n", cands[i]);
+        let o = tool::run_backend(&one, target);
+        if o.ok() {
+            picked.push(cands[i]);
+        }
+    }
+    let names: Vec<String> = picked.iter().map(|c| c.split('(').next().unwrap_or("").trim_start_matches("pub fn ").split('<').next().unwrap_or("").to_string()).collect();
+    (format!("sweep:{}", names.join(",")), format!("    #[diplomat::opaque]\n    pub struct XtShp;\n    impl XtShp {{\n{}    }}\n", picked.iter().map(|c| format!("        {c}\n")).collect::<String>()))
 }
 
 fn includes_of(text: &str) -> Vec<String> {
@@ -294,6 +347,14 @@ pub fn main(args: &[String]) {
             if tool::run_backend(&with, target).lowering_errors.is_empty() {
                 src = with;
                 tag = t;
+            }
+        }
+        if i % 2 == 0 {
+            let (t, items) = sweep_snippet(&mut rng, target);
+            let with = crate::extras::splice(&src, &items);
+            if tool::run_backend(&with, target).lowering_errors.is_empty() {
+                src = with;
+                tag = format!("{tag}+{t}");
             }
         }
         let mut kw = vec![];
